@@ -534,6 +534,8 @@ class Facts:
         f = self.cfg_features()
         if self.cfg == "portable1":
             return "portable1"
+        if self.cfg == "neon1":
+            return "neon1"
         if "pure" in f:
             return "pure"
         if "prefer_intrinsics" in f:
